@@ -175,7 +175,8 @@ def admissible(n, p, geometry):
 def cog_time(draw, n, p):
     """a time inside the validity interval of problem n"""
     if n in (6, 7, 18):
-        return draw(uni(0.0, 0.9)) * p['tau']
+        # Cog7 declares t <= 0 invalid (NaN); keep the time stencil on the valid side for all three
+        return draw(uni(0.02, 0.9)) * p['tau']
     if n == 20:
         return draw(uni(0.02, 0.45)) / p['a']
     if n == 3:
